@@ -117,6 +117,9 @@ PROFILES = {
                   conns=("c1", "c2", "c3", "c4", "c5")),
     "reuseu": dict(scripted="reuse", apps=["a1"], sides=["s1", "s2", "s3"], names=["1", "x"], client_mbox=["m1"],
                    conns=("c1", "c2", "c3", "c4", "c5"), usage=True),
+    # a restarted server, clients that bind and sit idle across sweeps, long silent subscriptions (gen.run_idle)
+    "idle": dict(scripted="idle", apps=["a1", "a2"], sides=["s1", "s2"], names=["1", "x"], client_mbox=["m1"],
+                 conns=("c1", "c2", "c3", "c4")),
     "allocfull": dict(apps=["a1"], sides=["s1", "s2"], names=["1", "10", "100"], client_mbox=["m1"],
                       steps=25, type_weights=dict(allocate=8, release=2, close=1, add=1), final_quiesce=False,
                       only_props=["C04.a", "C04.b", "C04.c"], skip_prefill_lines=True,
@@ -138,11 +141,16 @@ def _p(clauses, mc, sim, profiles, pprops, pairs=(), pairclause=None):
                 pairclause=pairclause)
 
 
+# properties whose checks also judge the executions of the repository's own websocket tests
+# (recorded from outside by harness/mbh/testrec.py)
+TESTS_SOURCE = {"C01", "C02", "C03", "C04", "C05", "C07", "C08", "C09", "C15", "C17", "C18"}
+
+
 PLAN = {
     "C01": _p(["C01.a", "C01.b"], [("core", 9, 12), ("apps", 8, 11)], ["core", "time"],
-              ["mailbox", "apps", "time", "script", "script2", "reuse"], ["P01"]),
+              ["mailbox", "apps", "time", "script", "script2", "reuse", "idle"], ["P01"]),
     "C02": _p(["C02.a", "C02.b"], [("core", 9, 12), ("time", 8, 11)], ["core", "time"],
-              ["fanout", "mailbox", "time", "script", "script2", "reuse"], ["P02"]),
+              ["fanout", "mailbox", "time", "script", "script2", "reuse", "idle"], ["P02"]),
     # C07.a is C03's premise "for as long as the nameplate lives": an incarnation ends only by the
     # causes C07 lists, so a repeated claim must be told the same id until then
     "C03": _p(["C03.a", "C03.b", "C03.c", "C03.d", "C07.a"], [("core", 9, 12), ("apps", 8, 11)], ["core", "apps"],
@@ -157,7 +165,7 @@ PLAN = {
     "C07": _p(["C07.a", "C07.b", "C07.c", "C07.d", "C07.e"], [("core", 9, 12), ("apps", 8, 11)],
               ["core", "apps"], ["nameplate", "apps", "crowd", "script", "script2", "reuse"], ["P07"]),
     "C08": _p(["C08.a", "C08.b", "C08.c", "C08.d"], [("core", 9, 12)], ["core"],
-              ["mailbox", "nameplate", "script", "script2", "reuse"], ["P08"]),
+              ["mailbox", "nameplate", "script", "script2", "reuse", "idle"], ["P08"]),
     "C04": dict(_p(["C04.a", "C04.b", "C04.c"], [("alloc", 8, 11), ("allocnl", 8, 11)], ["core"],
                    ["alloc", "nameplate"], ["P04"]),
                 variants={"alloc": [dict(allow=True), dict(allow=False)]},
@@ -171,9 +179,9 @@ PLAN = {
     "C11": _p([], [("time", 8, 11)], ["time"], [], ["P01", "P02"],
               pairs=[("restart", 144, 4000)], pairclause="C11.pair"),
     "C12": _p(["C12.a", "C12.b", "C12.c"], [("time", 8, 11), ("time2", 7, 10)], ["time", "time2"],
-              ["time", "fanout", "script", "script2", "reuse"], ["P12"]),
+              ["time", "fanout", "script", "script2", "reuse", "idle"], ["P12"]),
     "C13": _p(["C13.a", "C13.b", "C13.c"], [("time", 8, 11), ("time2", 7, 10)], ["time", "time2"],
-              ["time", "crowd", "mailbox", "script", "script2", "reuse"], ["P13"]),
+              ["time", "crowd", "mailbox", "script", "script2", "reuse", "idle"], ["P13"]),
     "C14": _p([], [("core", 9, 12)], ["core"], [], ["P03", "P07", "P08"],
               pairs=[("resend", 120, 4000)], pairclause="C14.pair"),
     "C15": dict(_p(["C15.a", "C15.b", "C15.c"], [("usage", 7, 10), ("usage7", 7, 10)], ["usage", "usage7"],
@@ -196,7 +204,7 @@ PLAN = {
                    ["nameplate"], ["P18"], pairs=[("config", 120, 4000)], pairclause="C18.pair"),
                 variants={"nameplate": [dict(allow=True), dict(allow=False), dict(allow=False, usage=True, blur=3)]}),
     "C17": dict(_p(["C17.a", "C17.b", "C17.c", "C17.d", "C17.e", "C17.f", "C17.g"], [("proto", 7, 10), ("apps", 8, 11)],
-                   ["proto"], ["proto", "apps", "script", "script2", "reuse"], ["P17"]),
+                   ["proto"], ["proto", "apps", "script", "script2", "reuse", "idle"], ["P17"]),
                 # the configured welcome notices: none, a message of the day, an error, a version, all three
                 witness_mc=[("apps", 8, "W_F2")],
                 variants={"proto": [dict(), dict(welcome={"motd": "hello \u2603"}),
@@ -247,3 +255,5 @@ def paircfg_cfg_text(alt, depth):
         lines.append("  %s %s" % (k, v) if v.startswith("<-") else "  %s = %s" % (k, v))
     lines += ["CONSTRAINT CConstr", "VIEW CView", "INVARIANT CfgInv", "CHECK_DEADLOCK FALSE"]
     return "\n".join(lines) + "\n"
+for _k in TESTS_SOURCE:
+    PLAN[_k]["tests"] = True
